@@ -345,6 +345,8 @@ class FakeS3:
         self.strict = strict_params
         self.shapes = op_shapes()
         self.script_count = {}
+        self.key_events = {}     # key -> number of call begin/end events
+        self.event_hook = None   # called after each begin/end event
 
     def client(self, name='c', rcc='when_required'):
         return FakeClient(self, name, rcc)
@@ -391,6 +393,10 @@ class FakeClient:
                 up.log.append(rec)
         s.point(None, f's3.{op}.begin')
         rec['begin'] = s.step
+        ke = svc.key_events
+        ke[rec['key']] = ke.get(rec['key'], 0) + 1
+        if svc.event_hook is not None:
+            svc.event_hook(rec['key'])
         svc.trace.ev('s3.begin', call=rec['id'], op=op, key=rec['key'])
         try:
             unknown = [k for k in kwargs if k not in svc.shapes[opname]]
@@ -422,6 +428,10 @@ class FakeClient:
                     s.point(None, f's3.{op}.end')
                 finally:
                     rec['end'] = s.step
+                    ke = svc.key_events
+                    ke[rec['key']] = ke.get(rec['key'], 0) + 1
+                    if svc.event_hook is not None and not s.aborting:
+                        svc.event_hook(rec['key'])
                     svc.trace.ev('s3.end', call=rec['id'], op=op,
                                  key=rec['key'], outcome=rec['outcome'])
 
